@@ -14,7 +14,7 @@ def factory():
 
 
 def run(tier, seed):
-    return run_generic("C08", tier, seed, factory, WIT, RULE, heap_variants=(("B", "C") if tier == "quick" else ("A", "B", "C")))
+    return run_generic("C08", tier, seed, factory, WIT, RULE, heap_variants=(("B", "C", "D") if tier == "quick" else ("A", "B", "C", "D")))
 
 
 def replay(payload):
